@@ -172,7 +172,23 @@ def run_config(cfg, res):
       got = list(o['got'])
       gi = 0
       bad = None
-      for kind, e in exp:
+      # An unspecified datapoint (negative timestamp other than -1) may or may not be admitted, and what it is admitted as
+      # may coincide with a specified one: decide by alignment, and use the greedy walk below only to word a failure.
+      feas = {len(got)}
+      for kind, e in reversed(exp):
+        nxt = set()
+        for j in range(len(got) + 1):
+          if kind == 'must':
+            if j < len(got) and j + 1 in feas and proto.same_points([got[j]], [e]) is None:
+              nxt.add(j)
+          else:
+            if j in feas or (j < len(got) and j + 1 in feas and got[j][0] == e[0]):
+              nxt.add(j)
+        feas = nxt
+      aligned = 0 in feas
+      if aligned:
+        res.count('unspecified_negative_timestamp_admitted', len(got) - sum(1 for k, _ in exp if k == 'must'))
+      for kind, e in ([] if aligned else exp):
         if kind == 'must':
           if gi >= len(got):
             bad = ('filtered-wrongly', 'admissible datapoint %r did not reach the pipeline' % (e,))
@@ -193,8 +209,8 @@ def run_config(cfg, res):
           if gi < len(got) and got[gi][0] == e[0] and not any(k == 'must' and ee[0] == e[0] and proto.same_points([got[gi]], [ee]) is None for k, ee in exp):
             gi += 1
             res.count('unspecified_negative_timestamp_admitted')
-      if bad is None and gi != len(got):
-        bad = ('admitted-wrongly', 'pipeline received unexpected %r' % (got[gi],))
+      if bad is None and not aligned:
+        bad = ('admitted-wrongly', 'pipeline received unexpected %r' % (got[gi] if gi < len(got) else got,))
       if bad:
         res.violation('%s/%s' % (protoname, bad[0]), '%s; whitelist=%r blacklist=%r res=%d' % (bad[1], wl, bl, cfg['res']), wit)
       db = instrumentation.stats.get('blacklistMatches', 0) - b0
